@@ -169,6 +169,9 @@ func Prepare(s *ev.S, opt Options) (*BuildReport, error) {
 		}
 		used := false
 		for _, d := range f.Defs {
+			if d.Synthetic {
+				continue // registered through its service below
+			}
 			switch d.Kind {
 			case "struct", "union", "exception":
 				fmt.Fprintf(&sb, "\treg.Add(%q, %q, reflect.TypeOf(%s.%s{}))\n", pk, d.Name, alias(pk), d.GoIdent())
